@@ -120,6 +120,15 @@ MUTANTS = [
     ("c18_tx_spread_sign", ["C18"], "bt/core.py", "            prc += bidoffer.unstack() / trades", "            prc += bidoffer.unstack() / trades.abs()"),
     ("c18_replay_window_inclusive_start", ["C18"], "bt/algos.py", "        transactions = all_transactions[(timestamps > start) & (timestamps <= end)]\n        for (_, security), transaction in transactions.iterrows():\n            c = target[security]\n            c.transact(transaction[\"quantity\"], price=transaction[\"price\"], update=False)\n\n        # Now update\n        target.root.update(target.now)\n\n        return True\n\n\nclass SimulateRFQTransactions", "        transactions = all_transactions[(timestamps >= start) & (timestamps <= end)]\n        for (_, security), transaction in transactions.iterrows():\n            c = target[security]\n            c.transact(transaction[\"quantity\"], price=transaction[\"price\"], update=False)\n\n        # Now update\n        target.root.update(target.now)\n\n        return True\n\n\nclass SimulateRFQTransactions"),
     ("c18_result_prices_rebased", ["C18"], "bt/backtest.py", "        tmp = [pd.DataFrame({x.name: x.strategy.prices}) for x in backtests]\n        super(Result, self).__init__(*tmp)", "        tmp = [pd.DataFrame({x.name: x.strategy.prices.iloc[1:]}) for x in backtests]\n        super(Result, self).__init__(*tmp)"),
+    # ---- C06
+    ("c06_cash_scales_base", ["C06"], "bt/algos.py", "            target.rebalance(item[1] * scale, child=item[0], base=base, update=False)", "            target.rebalance(item[1], child=item[0], base=base * scale, update=False)"),
+    ("c06_non_targets_kept", ["C06"], "bt/algos.py", "            if v != 0.0 and not np.isnan(v):\n                target.close(cname, update=False)", "            if v > 0.0 and not np.isnan(v):\n                target.close(cname, update=False)"),
+    ("c06_base_recomputed_each_child", ["C06"], "bt/algos.py", "            target.rebalance(item[1] * scale, child=item[0], base=base, update=False)", "            target.rebalance(item[1] * scale, child=item[0], update=True)"),
+    ("c06_rebalance_delta_on_stale_weight", ["C06"], "bt/core.py", "            delta = weight - c.weight\n            c.allocate(delta * base, update=update)", "            delta = weight - (c._value / base if base else 0.0) * 0.98\n            c.allocate(delta * base, update=update)"),
+    ("c06_substrategy_equal_split", ["C06"], "bt/core.py", "                [c.allocate(amount * c._weight, update=False) for c in self._childrenv]", "                [c.allocate(amount / len(self._childrenv), update=False) for c in self._childrenv]"),
+    ("c06_rot_divides_by_n", ["C06"], "bt/algos.py", "                dlt = (self._weights[cname] - curr) / self._days_left", "                dlt = (self._weights[cname] - curr) / self.n"),
+    ("c06_rot_never_disarms", ["C06"], "bt/algos.py", "            if self._days_left == 0:\n                self._days_left = None\n                self._weights = None", "            if self._days_left == 0:\n                self._days_left = 1"),
+    ("c06_close_leaves_short", ["C06"], "bt/core.py", "            if c.value != 0.0 and not np.isnan(c.value):\n                c.allocate(-c.value, update=update)", "            if c.value > 0.0 and not np.isnan(c.value):\n                c.allocate(-c.value, update=update)"),
     # ---- C08
     ("c08_fee_reset_every_update", ["C08", "C07"], "bt/core.py", "        # update now\n        self.now = date\n        if inow is None:\n            if self.now == 0:\n                inow = 0\n            else:\n                inow = self.data.index.get_loc(date)\n\n        # update children if any and calculate value", "        # update now\n        self.now = date\n        self._last_fee = 0.0\n        if inow is None:\n            if self.now == 0:\n                inow = 0\n            else:\n                inow = self.data.index.get_loc(date)\n\n        # update children if any and calculate value"),
     ("c08_outlay_row_accumulates", ["C08", "C07"], "bt/core.py", "            self._outlays.array[inow] += self._outlay\n            # reset outlay back to 0\n            self._outlay = 0\n", "            self._outlays.array[inow] += self._outlay\n"),
